@@ -287,9 +287,17 @@ class Flow:
             if what == "param":
                 out |= self._param(f, name, env, depth)
             elif what in ("value", "with"):
-                out |= self.term(payload, f, env, depth + 1)
+                tv = self.term(payload, f, env, depth + 1)
+                if what == "value" and isinstance(payload, ast.Name):
+                    # shape refinement by use: a sibling `a, b = V` takes the tuples of that arity, `x = V` the rest
+                    ar = self._sibling_unpack_arities(f, payload.id)
+                    if ar:
+                        rest = frozenset(t for t in tv if not (t[0] == "list" and len(t[1]) in ar))
+                        if rest:
+                            tv = rest
+                out |= tv
             elif what == "iter":
-                out.add(("elem", self.term(payload, f, env, depth + 1)))
+                out |= self._iter_elems(self.term(payload, f, env, depth + 1), env, depth)
             elif what == "iterunpack":
                 it, idx = payload
                 out.add(("elem", fs(("sub", self.term(it, f, env, depth + 1), fs(("const", idx))))))
@@ -308,6 +316,35 @@ class Flow:
             out.add(("elem", self.term(val, f, env, depth + 1)))
         return frozenset(out)
 
+    def _iter_elems(self, it_terms, env, depth):
+        """Terms of the elements obtained by iterating over a value."""
+        out = set()
+        rest = set()
+        for t in it_terms:
+            if t[0] == "inst":
+                cls = self.prog.classes.get(t[1])
+                nxt = self.prog.find_method(cls, "__next__") if cls else None
+                if nxt is None and cls is not None:
+                    it = self.prog.find_method(cls, "__iter__")
+                    if it is not None and it.is_generator:
+                        nxt = it
+                if nxt is not None:
+                    cenv = dict(env)
+                    for pn, pv in t[2]:
+                        cenv[pn] = pv
+                    if nxt.is_generator:
+                        for y in own_nodes(nxt.node):
+                            if isinstance(y, ast.Yield) and y.value is not None:
+                                out |= self.term(y.value, nxt, cenv, depth + 1)
+                    else:
+                        for r in self.res.return_exprs(nxt):
+                            out |= self.term(r, nxt, cenv, depth + 1)
+                    continue
+            rest.add(t)
+        if rest:
+            out.add(("elem", frozenset(rest)))
+        return out
+
     def _unpack(self, value, idx, n, f, env, depth):
         out = set()
         handled = False
@@ -322,8 +359,27 @@ class Flow:
                         for r in rets:
                             out |= self.term(r.elts[idx], callee, cenv, depth + 1)
         if not handled:
-            out.add(("sub", self.term(value, f, env, depth + 1), fs(("const", idx))))
+            tv = self.term(value, f, env, depth + 1)
+            tuples = [t for t in tv if t[0] == "list" and len(t[1]) == n and idx is not None]
+            if tuples:
+                for t in tuples:
+                    out |= t[1][idx]
+            else:
+                out.add(("sub", tv, fs(("const", idx))))
         return out
+
+    def _sibling_unpack_arities(self, f, src_name):
+        key = (f, src_name)
+        cache = self.__dict__.setdefault("_sua", {})
+        if key not in cache:
+            ar = set()
+            for n in own_nodes(f.node):
+                if isinstance(n, ast.Assign) and isinstance(n.value, ast.Name) and n.value.id == src_name:
+                    for t in n.targets:
+                        if isinstance(t, (ast.Tuple, ast.List)):
+                            ar.add(len(t.elts))
+            cache[key] = ar
+        return cache[key]
 
     def _param(self, f, name, env, depth):
         k = (f.qual, name)
